@@ -622,6 +622,11 @@ pub fn run(ctx: &Ctx) -> i32 {
                 if m == "org+jmp" && devices::forbidding_flag(dev, "jmp").is_some() {
                     continue;
                 }
+                // (stepping back to the start is an error of its own below capacity: that method only says
+                // something one unit above it, where the build must fail whichever way the step back is taken)
+                if m == "full-then-back-to-start" && usage <= cap {
+                    continue;
+                }
                 if let Some(body) = body_for(mem, m, usage, dev.ram_start, &mut rng) {
                     extra.push(Case { device: Some(name.clone()), prefix: format!(".device {}\n", name), include_dir: None, mem, method: m, usage, cap, body,
                         exp_flash_words: dev.flash_size, exp_eeprom: dev.eeprom_size, exp_ram: dev.ram_size, source_of_cap: "table", placement: "top" });
